@@ -14,6 +14,8 @@ run MC_Small MC_Small_scroll_narrow        # defect 4: u16 sum in set_vertical_s
 run MC_Small MC_Small_init_narrow          # init check without the u32 widening
 run MC_Parallel MC_Parallel_notake         # bus cache without last.take()
 run MC_ParXfer MC_ParXfer_fast2            # is_same comparing the first two words only
+run MC_ParXfer MC_ParXfer_wrap             # defect 5: strobe count count * N formed in the machine word (release build: wraps)
+run MC_ParXfer MC_ParXfer_ovf              # defect 5, overflow checks on: panics
 run MC_Lifecycle MC_Lifecycle_flagfirst    # sleeping flag set before the command is sent
 run MC_Lifecycle MC_Lifecycle_short        # delay shorter than 120 ms
 rm -rf /verif/work/neg.$$
